@@ -89,6 +89,8 @@ def load_known():
 def generate(qualnames, lambda_mode):
     """-> (per_fn dict, engine)"""
     eng = Engine(Repo())
+    eng.ref_locals = {q: b.get('locals') for q, b in load_baseline().items() if b.get('locals')}
+    eng.ref_loopvars = {q: b.get('loopvars') for q, b in load_baseline().items() if b.get('loopvars') is not None}
     per = {}
     for q in qualnames:
         # a contract may state which array encoding its obligations are known to discharge in
@@ -282,7 +284,9 @@ def run_property(pid, tier, seed, out=sys.stdout):
             continue
         bad = [(ob, r) for ob, r in items if r['verdict'] != solve.PROVED]
         ob, r = bad[0]
-        if ob.kind == 'deadpath':
+        if ob.kind in ('deadpath', 'proofstep'):
+            # (proofstep: an intermediate lemma step of a loop contract -- a proof device; when it fails on changed code the
+            # proof has to be redone, nothing is known about the property)
             # construct outside the supported subset on a path that is not shown infeasible: nothing is decided by the
             # verifier; the run-time check of the same contract on the real function may still exhibit a failing input
             nf = native_failure_for(q, name)
@@ -295,7 +299,8 @@ def run_property(pid, tier, seed, out=sys.stdout):
                           open(path, 'w'), indent=1, default=str)
                 if not any(v[0] == vname for v in violations):
                     violations.append((vname, path, True))
-            undecided.append(dict(obligation=name, why='unsupported construct on a feasible path', trail=ob.trail))
+            undecided.append(dict(obligation=name, why='unsupported construct on a feasible path' if ob.kind == 'deadpath' else
+                                  'intermediate proof step of the loop contract no longer goes through', trail=ob.trail))
             continue
         refuted = any(x['verdict'] == solve.REFUTED for _, x in bad)
         nf = native_failure_for(q, name)
@@ -468,7 +473,7 @@ def run_property(pid, tier, seed, out=sys.stdout):
             if per[q].get('sha'):
                 old = bl.get(q, {})
                 prev = set(old.get('proved', [])) if not code_changed(old, per[q]) else set()
-                bl[q] = dict(sha=per[q]['sha'], ast_sha=per[q].get('ast_sha'), proved=sorted(prev | proved_by_fn.get(q, set())))
+                bl[q] = dict(sha=per[q]['sha'], ast_sha=per[q].get('ast_sha'), locals=per[q].get('locals'), loopvars=per[q].get('loopvars'), proved=sorted(prev | proved_by_fn.get(q, set())))
         json.dump(bl, open(BASELINE_FILE, 'w'), indent=0, sort_keys=True)
     if os.environ.get('PYVC_RECORD_HINTS'):
         # maintenance mode: remember which solver configuration discharged each obligation (speed hint, see solve.py)
